@@ -113,6 +113,11 @@ def build_ops(sig, rng):
     other = np.ones(sig.shape, dtype=sig.dtype)
     add("ufunc_arr", "array", lambda: np.multiply(other, sig))
     add("ufunc_neg", "none", lambda: -sig)
+    # masked evaluation without out=: only the result is written, never the operand
+    msk = rng.random(sig.shape) < 0.5
+    add("ufunc_where_array", "array", lambda: np.multiply(sig, 10, where=msk))
+    if sig.dtype.kind == "f":
+        add("ufunc_where_signal", "signal", lambda: np.add(sig, 1.0, where=sig > 0))
     add("asarray", "none", lambda: np.asarray(sig))
     # np.array() promises its caller a private copy: the caller then edits that copy in place (judged by the history check)
     akw = [{}, {"dtype": sig.dtype}, {"dtype": sig.dtype, "copy": True}, {"copy": True}, {"dtype": np.dtype(sig.dtype).newbyteorder("=")}]
@@ -140,6 +145,12 @@ def build_ops(sig, rng):
         tq = (t / sr).to(u.s)
         add("snippet_q", "quantity", lambda: pb.snippet(sig, tq, k))
         add("snippet_bad", "invalid", lambda: pb.snippet(sig, n + 2.5, 1))
+        # the offset as a caller-held 0-d array (an entry of a table of offsets)
+        table = np.array([t, 0.0])
+        t0d = table[0:1].reshape(())
+        add("snippet_0d_array", "array0d", lambda: pb.snippet(sig, t0d, k))
+        ti0d = np.array(int(t))
+        add("snippet_0d_int_array", "array0d", lambda: pb.snippet(sig, ti0d, min(k, n - int(t))))
         if n >= 2:
             # offsets a few 1e-9 samples past a whole sample (time_shift treats such shifts as zero and returns its argument)
             k2 = int(rng.integers(0, n - 1))
